@@ -1,5 +1,5 @@
 (* C14 — interrupts pause before dependants run and resume to the same result. *)
-From HG Require Import Base Rename Engine Exec Nested NestedProofs EngineProofs InterruptProofs Samples.
+From HG Require Import Base Rename Engine Exec Nested NestedProofs EngineProofs InterruptProofs Samples InterruptRun InterruptRunModel.
 From stdpp Require Import gmap.
 
 Theorem C14_pause : forall ft n st ins f o outs',
@@ -61,6 +61,72 @@ Theorem C14_paused_values : forall exec r fuel g pv st log pz s,
     superstep exec r g (ready_state g sk) pv (ready_list g sk) = (SPause pz s2, calls) /\ s = ready_state g sk.
 Proof. exact paused_state. Qed.
 Print Assumptions C14_paused_values.
+
+(* WHOLE RUNS.  The chain  A(x) -> a ; I(a) -> d [interrupt] ; B(a, d) -> b  (InterruptRun.chain) with ARBITRARY node functions
+   fa, fb, under the asynchronous runner, any budget of at least 2 (pause) / 3 supersteps.  The interrupt's executor is any
+   function with the behaviours of C14_pause / C14_resume_passes / interrupt_auto.
+   (1) A handler that does not answer pauses the run at I: after A, before B; the pause names I, its output and its input's
+       value; the returned state holds a and neither d nor b; the call log holds A and I only. *)
+Theorem C14_run_pauses : forall (fa : Z -> val) (exec : node -> state -> dict val -> outcome),
+  (forall st x, exec nodeA st [(1%positive, VInt x)] = OOk [(31%positive, fa x)] None) ->
+  forall x fuel,
+  (forall st a, vals st !! 32%positive = None -> exec nodeI st [(31%positive, a)] = OPause (mk_pause [15%positive] 32%positive a)) ->
+  exists s,
+    execute exec Async (S (S fuel)) chain [(1%positive, VInt x)] =
+      (RPaused (mk_pause [15%positive] 32%positive (fa x)) s,
+       [[(10%positive, [(1%positive, VInt x)])]; [(15%positive, [(31%positive, fa x)])]]) /\
+    vals s !! 31%positive = Some (fa x) /\ vals s !! 32%positive = None /\ vals s !! 33%positive = None.
+Proof. exact chain_pauses. Qed.
+Print Assumptions C14_run_pauses.
+
+(* (2) The same call with the response supplied under d resumes: I passes it on without consulting the handler, B runs once
+       with it, the run completes. *)
+Theorem C14_run_resumes : forall (fa : Z -> val) (fb : val -> val -> val) (exec : node -> state -> dict val -> outcome),
+  (forall st x, exec nodeA st [(1%positive, VInt x)] = OOk [(31%positive, fa x)] None) ->
+  (forall st a d, exec nodeB st [(31%positive, a); (32%positive, d)] = OOk [(33%positive, fb a d)] None) ->
+  forall x d fuel,
+  (forall st a v, vals st !! 32%positive = Some v -> execs st !! 15%positive = None ->
+     exec nodeI st [(31%positive, a)] = OOk [(32%positive, v)] None) ->
+  exists s,
+    execute exec Async (S (S (S fuel))) chain [(1%positive, VInt x); (32%positive, d)] =
+      (RDone s, [[(10%positive, [(1%positive, VInt x)])]; [(15%positive, [(31%positive, fa x)])];
+                 [(11%positive, [(31%positive, fa x); (32%positive, d)])]]) /\
+    vals s !! 31%positive = Some (fa x) /\ vals s !! 32%positive = Some d /\ vals s !! 33%positive = Some (fb (fa x) d).
+Proof. exact chain_resumes. Qed.
+Print Assumptions C14_run_resumes.
+
+(* (3) ... which is the result (values and call log) of the run whose handler answers by itself with that response. *)
+Theorem C14_run_answered : forall (fa : Z -> val) (fb : val -> val -> val) (exec : node -> state -> dict val -> outcome),
+  (forall st x, exec nodeA st [(1%positive, VInt x)] = OOk [(31%positive, fa x)] None) ->
+  (forall st a d, exec nodeB st [(31%positive, a); (32%positive, d)] = OOk [(33%positive, fb a d)] None) ->
+  forall x d fuel,
+  (forall st a, vals st !! 32%positive = None -> exec nodeI st [(31%positive, a)] = OOk [(32%positive, d)] None) ->
+  exists s,
+    execute exec Async (S (S (S fuel))) chain [(1%positive, VInt x)] =
+      (RDone s, [[(10%positive, [(1%positive, VInt x)])]; [(15%positive, [(31%positive, fa x)])];
+                 [(11%positive, [(31%positive, fa x); (32%positive, d)])]]) /\
+    vals s !! 31%positive = Some (fa x) /\ vals s !! 32%positive = Some d /\ vals s !! 33%positive = Some (fb (fa x) d).
+Proof. exact chain_answered. Qed.
+Print Assumptions C14_run_answered.
+
+(* The executors of the engine model (exec_basic for A and B, Nested.exec_interrupt for I, handler FConst) satisfy those
+   hypotheses: pause, resume and "same result as the answering handler" hold of the model program itself, for every x and
+   every response d other than None. *)
+Theorem C14_model_run : forall x d fuel, d <> VNone ->
+  (exists s, execute (chain_exec (FConst VNone)) Async (S (S fuel)) chain [(1%positive, VInt x)] =
+             (RPaused (mk_pause [15%positive] 32%positive (sym_a x)) s,
+              [[(10%positive, [(1%positive, VInt x)])]; [(15%positive, [(31%positive, sym_a x)])]]) /\
+             vals s !! 31%positive = Some (sym_a x) /\ vals s !! 32%positive = None /\ vals s !! 33%positive = None) /\
+  (exists s s', execute (chain_exec (FConst VNone)) Async (S (S (S fuel))) chain [(1%positive, VInt x); (32%positive, d)] =
+                  (RDone s, [[(10%positive, [(1%positive, VInt x)])]; [(15%positive, [(31%positive, sym_a x)])];
+                             [(11%positive, [(31%positive, sym_a x); (32%positive, d)])]]) /\
+                execute (chain_exec (FConst d)) Async (S (S (S fuel))) chain [(1%positive, VInt x)] =
+                  (RDone s', [[(10%positive, [(1%positive, VInt x)])]; [(15%positive, [(31%positive, sym_a x)])];
+                              [(11%positive, [(31%positive, sym_a x); (32%positive, d)])]]) /\
+                (forall o, In o [31%positive; 32%positive; 33%positive] -> vals s !! o = vals s' !! o) /\
+                vals s !! 33%positive = Some (sym_b (sym_a x) d)).
+Proof. exact chain_model. Qed.
+Print Assumptions C14_model_run.
 
 (* Non-vacuity: A(x)->a ; interrupt I(a)->d (handler returns None) ; B(d)->b *)
 Definition int_nodes : list node :=
